@@ -197,6 +197,7 @@ func delegatingBuilders(c *Ctx, pkg string) {
 		ev := NewEvaluator(c.P, EvalConfig{NoSamePkgInline: true})
 		ok := true
 		ps := ev.Run(fn)
+		var sameBuilt *bool // decided at most once, when the shorthand is not literally Builder(…).Build()
 		for _, p := range ps {
 			calls := eventsWhere(p, func(e *Event) bool { return e.Kind == EvCall && !e.Pure })
 			good := p.Exit == ExitReturn && len(calls) == 2 && calls[0].Method == w[1] && isCall(calls[1], "Build") && calls[1].Recv == calls[0].Res[0] && p.Rets[0] == calls[1].Res[0]
@@ -207,13 +208,20 @@ func delegatingBuilders(c *Ctx, pkg string) {
 					}
 				}
 			}
-			if !good {
+			if debugLoadField {
+				fmt.Println("forced withBuildsSame", w[0], withBuildsSame(c, fn, c.P.Func(pkg+"."+w[1])))
+			}
+			if !good && sameBuilt == nil {
+				sb := withBuildsSame(c, fn, c.P.Func(pkg+"."+w[1]))
+				sameBuilt = &sb
+			}
+			if !good && !*sameBuilt {
 				ok = false
 				c.Fail(w[0], c.P.FuncPos(fn), fn.Name()+" must be exactly "+w[1]+"(its arguments).Build()", pathTrace(ev, p))
 			}
 		}
 		if ok && len(ps) > 0 {
-			c.Ok(w[0], c.P.FuncPos(fn), "≡ "+w[1]+"(…).Build()")
+			c.Ok(w[0], c.P.FuncPos(fn), map[bool]string{true: "≡ " + w[1] + "(…).Build()", false: "builds the same object from the same arguments as " + w[1] + "(…).Build()"}[sameBuilt == nil])
 		}
 	}
 }
@@ -287,4 +295,64 @@ func builderMayChange(fn, field string) bool {
 		}
 	}
 	return false
+}
+
+// withBuildsSame: with (a With… shorthand) and builder(the same arguments).Build() construct the same object: same
+// shape of the result, same effects, on the same conditions. Everything of the library is evaluated in place, so it
+// does not matter how the construction is factored into helpers.
+func withBuildsSame(c *Ctx, with, builder *ssa.Function) bool {
+	if with == nil || builder == nil || len(with.Params) != len(builder.Params) {
+		return false
+	}
+	cfg := func() EvalConfig {
+		return EvalConfig{ResolveInvoke: resolveByStaticType, MaxPaths: 256, Inline: func(f *ssa.Function, depth int) bool { return c.P.InScope[f] && depth < 12 }}
+	}
+	names := func(fn *ssa.Function) []string {
+		var out []string
+		for _, p := range fn.Params {
+			out = append(out, p.Name())
+		}
+		return out
+	}
+	evW := NewEvaluator(c.P, cfg())
+	psW := evW.Run(with)
+	if evW.Err != nil || len(psW) == 0 {
+		return false
+	}
+	evB := NewEvaluator(c.P, cfg())
+	var psB []*Path
+	for _, p := range evB.Run(builder) {
+		if p.Exit != ExitReturn || len(p.Rets) != 1 {
+			return false
+		}
+		bf, recv := resolveByStaticType(evB, p.State, p.Rets[0], "Build")
+		if bf == nil {
+			return false
+		}
+		for _, q := range evB.RunFrom(p.State, bf, []*T{recv}, nil) {
+			q.Base = 0
+			psB = append(psB, q)
+		}
+	}
+	if evB.Err != nil || len(psB) != len(psW) {
+		return false
+	}
+	shapes := func(ev *Evaluator, ps []*Path, params []string) []string {
+		var out []string
+		for _, p := range ps {
+			out = append(out, newShaper(ev, p.State, params).pathShape(p, len(ps) > 1))
+		}
+		sort.Strings(out)
+		return out
+	}
+	a, b := shapes(evW, psW, names(with)), shapes(evB, psB, names(builder))
+	for i := range a {
+		if a[i] != b[i] {
+			if debugLoadField {
+				fmt.Printf("withBuildsSame %s:\n  %s\n  %s\n", with.Name(), a[i], b[i])
+			}
+			return false
+		}
+	}
+	return true
 }
